@@ -5,7 +5,9 @@
 import sys, os, json, subprocess, shutil, re
 pid, i = sys.argv[1], sys.argv[2]
 checks = sys.argv[3:] or [pid]
-src = "/tmp/mut/out-%s/%s" % (pid, i)
+rnd = int(os.environ.get("ROUND", "1"))
+src = ("/tmp/mut/out-%s/%s" if rnd == 1 else "/tmp/mut/o2-%s/%s") % (pid, i)
+i = str(int(i) + 2 * (rnd - 1))
 slot = "%s-%s" % (pid, i)
 sv = subprocess.run(["/verif/tools/seedverify.sh", src, slot], capture_output=True, text=True).stdout
 mt = subprocess.run(["/verif/tools/muttest.sh", os.path.join(src, "patch.diff"), slot] + checks, capture_output=True, text=True).stdout
